@@ -2,6 +2,9 @@ package main
 
 import (
 	"fmt"
+	"regexp"
+	"strconv"
+	"strings"
 	"go/ast"
 	"go/parser"
 	"go/token"
@@ -154,7 +157,11 @@ func (e *Enc) enterLoop(f *frame, li *loopInfo, order []*ssa.BasicBlock) {
 			e.oblige("loop", label+".init."+inv.Label, e.evalBool(env, inv), li.pos)
 		}
 	}
-	wc, wv := e.dryRun(f, li, order)
+	// stage 1: from an arbitrary state, which cells / variables can be written
+	wc, wv, _, _, _, _ := e.dryRun(f, li, order, nil, nil)
+	// stage 2: with only those forgotten, at which indices are heap fields
+	// and arrays written (terms built from unchanged cells are loop-invariant)
+	_, _, wfull, widx, wfresh, n0 := e.dryRun(f, li, order, wc, wv)
 	// havoc the write set
 	var cells []*ssa.Alloc
 	for c := range wc {
@@ -186,6 +193,32 @@ func (e *Enc) enterLoop(f *frame, li *loopInfo, order []*ssa.BasicBlock) {
 			} else if s, ok2 := e.keySorts[k]; ok2 {
 				srt = s
 			} else {
+				continue
+			}
+			// partial havoc: the loop writes this variable only at indices that
+			// are loop-invariant terms (or freshly allocated in the loop)
+			partial := !wfull[k] && (strings.HasPrefix(k, "H|") || strings.HasPrefix(k, "M|"))
+			var stable []T
+			if partial {
+				seen := map[string]bool{}
+				for _, idx := range widx[k] {
+					if wfresh[idx.S] || seen[idx.S] {
+						continue
+					}
+					if !stableTerm(idx, n0) {
+						partial = false
+						break
+					}
+					seen[idx.S] = true
+					stable = append(stable, idx)
+				}
+			}
+			if partial {
+				cur := e.getVar(e.cur, k, srt)
+				for _, idx := range stable {
+					cur = store(cur, idx, e.freshT("lp_"+lastPart(k), arrElemSort(srt)))
+				}
+				e.cur.vars[k] = e.def("lpv_"+lastPart(k), cur)
 				continue
 			}
 			e.cur.vars[k] = e.freshT("lp_"+lastPart(k), srt)
@@ -250,12 +283,28 @@ func (e *Enc) backEdge(f *frame, li *loopInfo, from *ssa.BasicBlock) {
 
 // dryRun executes the loop body once from an arbitrary state, only to find
 // which cells and state variables the body may write.
-func (e *Enc) dryRun(f *frame, li *loopInfo, order []*ssa.BasicBlock) (map[*ssa.Alloc]bool, map[string]bool) {
+var reFreshNum = regexp.MustCompile(`!(\d+)`)
+
+// stableTerm: every generated name in t was created before the dry run
+// started, i.e. t denotes the same value in every iteration.
+func stableTerm(t T, n0 int) bool {
+	for _, m := range reFreshNum.FindAllStringSubmatch(t.S, -1) {
+		n, _ := strconv.Atoi(m[1])
+		if n > n0 {
+			return false
+		}
+	}
+	return true
+}
+
+func (e *Enc) dryRun(f *frame, li *loopInfo, order []*ssa.BasicBlock, onlyC map[*ssa.Alloc]bool, onlyV map[string]bool) (map[*ssa.Alloc]bool, map[string]bool, map[string]bool, map[string][]T, map[string]bool, int) {
 	nlines := len(e.lines)
 	savedCur, savedReach := e.cur, e.reach
 	savedIns := f.ins
 	savedRets, savedDefers := len(f.rets), len(f.defers)
 	savedWC, savedWV := e.writesC, e.writesV
+	savedWF, savedWI, savedFI := e.writesFull, e.writesIdx, e.freshIdx
+	n0 := e.nfresh
 	savedSkip := f.skipEnter
 	savedCalls, savedSafety := copyCounts(e.frames[0].ncall), copyCounts(e.frames[0].nsafety)
 	nerrs := len(e.errs)
@@ -265,8 +314,12 @@ func (e *Enc) dryRun(f *frame, li *loopInfo, order []*ssa.BasicBlock) (map[*ssa.
 	npairs := len(e.seqPairs)
 	nterms := len(e.seqTerms)
 	e.writesC, e.writesV = map[*ssa.Alloc]bool{}, map[string]bool{}
+	e.writesFull, e.writesIdx, e.freshIdx = map[string]bool{}, map[string][]T{}, map[string]bool{}
 	st := e.cur.clone()
 	for c, old := range st.cells {
+		if onlyC != nil && !onlyC[c] {
+			continue
+		}
 		switch old.(type) {
 		case Fn, FnSel:
 			continue // function-typed variables keep their (known) callee
@@ -277,17 +330,31 @@ func (e *Enc) dryRun(f *frame, li *loopInfo, order []*ssa.BasicBlock) (map[*ssa.
 		st.cells[c] = e.freshVal(deref(c.Type()), "dry")
 	}
 	for k, t := range st.vars {
+		if onlyV != nil && !onlyV[k] && !onlyV["*"] {
+			continue
+		}
 		if t.Sort != "" {
 			st.vars[k] = e.freshT("dry", t.Sort)
 		}
 	}
-	st.vars["*havoc*"] = T{"dry", ""}
+	if onlyV == nil || onlyV["*"] {
+		st.vars["*havoc*"] = T{"dry", ""}
+	} else {
+		for k := range onlyV {
+			if _, ok := st.vars[k]; !ok {
+				if srt, ok2 := e.keySorts[k]; ok2 {
+					st.vars[k] = e.freshT("dry", srt)
+				}
+			}
+		}
+	}
 	f.ins = map[*ssa.BasicBlock][]edgeIn{li.head: {{cond: tTrue, st: st}}}
 	f.skipEnter = li.head
 	e.reach = tTrue
 	e.runBlocks(f, order, li.blocks)
 
 	wc, wv := e.writesC, e.writesV
+	wfull, widx, wfresh := e.writesFull, e.writesIdx, e.freshIdx
 	e.dry--
 	e.loopDry--
 	e.seqPairs = e.seqPairs[:npairs]
@@ -300,15 +367,26 @@ func (e *Enc) dryRun(f *frame, li *loopInfo, order []*ssa.BasicBlock) (map[*ssa.
 	e.frames[0].ncall, e.frames[0].nsafety = savedCalls, savedSafety
 	e.errs = e.errs[:nerrs]
 	e.writesC, e.writesV = savedWC, savedWV
+	e.writesFull, e.writesIdx, e.freshIdx = savedWF, savedWI, savedFI
 	if savedWC != nil {
 		for c := range wc {
 			savedWC[c] = true
 		}
 		for k := range wv {
 			savedWV[k] = true
+			if wfull[k] {
+				savedWF[k] = true
+			}
+			// indices of an inner loop's writes are not stable for the outer one in general
+			for _, idx := range widx[k] {
+				savedWI[k] = append(savedWI[k], idx)
+			}
+		}
+		for k := range wfresh {
+			savedFI[k] = true
 		}
 	}
-	return wc, wv
+	return wc, wv, wfull, widx, wfresh, n0
 }
 
 func copyCounts(m map[string]int) map[string]int {
